@@ -247,13 +247,14 @@ class HierEval(evaln.Eval):
                 st = [x for k, x in enumerate(isn) if k >= len(impl.io_nodes)]
                 if st:
                     s0 = st[0]
-                    out[n.name] = e.line(s0.ins[0]) if len(s0.ins) > 0 and s0.ins[0] is not None else evaln.zero(self.m)
+                    out['state:' + n.name] = e.line(s0.ins[0]) if len(s0.ins) > 0 and s0.ins[0] is not None else evaln.zero(self.m)
                 continue
             if is_port or evaln.is_dff(n) or evaln.is_latch(n):
+                key = n.name if is_port else 'state:' + n.name      # a port fork and a cell may share a name
                 if len(n.ins) > 0 and n.ins[0] is not None:
-                    out[n.name] = self.line(n.ins[0])
+                    out[key] = self.line(n.ins[0])
                 elif not is_port:
-                    out[n.name] = evaln.zero(self.m)
+                    out[key] = evaln.zero(self.m)
         return out
 
 
